@@ -44,6 +44,7 @@ MANIFEST = {
             'built-in types, classes, exceptions with 0..2 arguments and '
             'objects with well- and ill-behaved __str__ is inserted by name '
             'and by expression and compared with str(v) / the message.',
+    'more': 'Also: exceptions whose single argument is false (0, None, [], ...); numbers whose string form is long; compatibility forms of the markup characters and line separators in the text set.',
     'note': 'Trusted: Python codecs; str(v) as the definition of the string '
             'form.  Every context contains literal text around the '
             'insertion, so the rendering always has more than one piece.',
